@@ -827,3 +827,73 @@ Proof.
   - unfold cell. rewrite Ei, Ej. unfold special_cell. unfold cell in E1, E2, E3. rewrite E1, E2, E3. reflexivity.
   - apply nth_In. lia.
 Qed.
+
+(* ---- SimulateRogue permutes residues within rows only ---------------------------------------------------- *)
+Definition rows_permuted (rs rs' : rows) : Prop :=
+  shape rs' = shape rs /\ forall k, Permutation (snd (nth k rs' ([], []))) (snd (nth k rs ([], []))).
+
+Lemma rows_permuted_refl rs : rows_permuted rs rs.
+Proof. split; [reflexivity | intros k; apply Permutation_refl]. Qed.
+
+Lemma rect_nth L (rs : rows) k : rect L rs -> (k < length rs)%nat -> length (snd (nth k rs ([], []))) = L.
+Proof. intros Hr Hk. apply Hr. apply nth_In. exact Hk. Qed.
+
+Lemma row_swap_permuted L s row c1 c2 :
+  rect L s -> 0 <= row < Z.of_nat (length s) -> (Z.to_nat c1 < L)%nat -> (Z.to_nat c2 < L)%nat ->
+  rows_permuted s (set_cell (set_cell s row c1 (cell s row c2)) row c2 (cell s row c1)).
+Proof.
+  intros Hr Hrow H1 H2. split; [rewrite !set_cell_shape; reflexivity|].
+  intros k. unfold set_cell. set (d := (@nil byte, @nil byte)). set (nr := Z.to_nat row).
+  rewrite !nth_set_nth, !set_nth_length.
+  assert (Hnr : (nr < length s)%nat) by (unfold nr; lia).
+  destruct (Nat.ltb_spec nr (length s)) as [_|?]; [|lia].
+  rewrite Nat.eqb_refl. cbn [fst snd].
+  destruct (Nat.eqb_spec k nr) as [->|Hk]; [|apply Permutation_refl].
+  cbn [snd]. unfold cell. fold nr. fold d.
+  pose proof (rect_nth L s nr Hr Hnr) as HLr. fold d in HLr.
+  apply (swap_list_perm (snd (nth nr s d)) x00 (Z.to_nat c1) (Z.to_nat c2)); rewrite HLr; assumption.
+Qed.
+
+Lemma rows_permuted_trans a b c : rows_permuted a b -> rows_permuted b c -> rows_permuted a c.
+Proof. intros [S1 P1] [S2 P2]. split; [congruence|]. intros k. eapply perm_trans; [apply P2 | apply P1]. Qed.
+
+Theorem rogue_permutes_within_rows L prop proplen rs t rogue intact out r :
+  tape_ok t -> rect L rs -> rs <> [] ->
+  simulate_rogue prop proplen rs t = Some ((rogue, intact, out), r) -> rows_permuted rs out.
+Proof.
+  intros Ht Hr Hne. unfold simulate_rogue. cbv zeta.
+  assert (Hn : 0 < nrows rs) by (unfold nrows; destruct rs; [contradiction | cbn [length]; lia]).
+  assert (HL : alen rs = Z.of_nat L).
+  { destruct rs as [|r0 rt]; [contradiction|]. unfold alen. f_equal. apply Hr. left. reflexivity. }
+  unfold bind at 1. destruct (zperm (nrows rs) t) as [[p t1]|] eqn:Ep; [|discriminate].
+  destruct (zperm_range _ _ _ _ Ht Hn Ep) as [Hp Ht1].
+  unfold bind at 1.
+  match goal with |- context [for_each ?l ?f rs t1] => destruct (for_each l f rs t1) as [[rs' t2]|] eqn:E; [|discriminate] end.
+  unfold ret. intros H. injection H as _ _ <- _.
+  revert E. intros E. apply (for_each_inv_t (fun s => rows_permuted rs s)) in E; [exact (proj1 E) | | apply rows_permuted_refl | exact Ht1].
+  intros s x t0 s' r0 _ Hs Ht0 H. unfold bind in H. destruct (zperm (alen rs) t0) as [[ps t3]|] eqn:Eps; [|discriminate].
+  destruct (Z_le_gt_dec (alen rs) 0) as [HL0|HL0].
+  - (* no column: nothing to permute *)
+    assert (ps = []).
+    { unfold zperm, perm in Eps. replace (Z.to_nat (alen rs)) with 0%nat in Eps by lia. cbn in Eps. congruence. }
+    subst ps. rewrite firstn_nil in H. cbn in H. unfold ret in H. injection H as <- <-.
+    split; [exact Hs|]. unfold zperm, perm in Eps. replace (Z.to_nat (alen rs)) with 0%nat in Eps by lia. cbn in Eps. congruence.
+  - assert (HLpos : 0 < alen rs) by lia.
+    destruct (zperm_range (alen rs) t0 ps t3 Ht0 HLpos Eps) as [Hps Ht3].
+    set (sites := firstn (Z.to_nat (scale proplen (alen rs))) ps) in *.
+    assert (Hsites : Forall (fun v => 0 <= v < alen rs) sites).
+    { apply Forall_forall. intros v Hv. unfold sites in Hv. apply firstn_incl_in in Hv. rewrite Forall_forall in Hps. apply Hps. exact Hv. }
+    revert H. apply (for_each_inv_t (fun s => rows_permuted rs s)); [|exact Hs | exact Ht3].
+    intros s1 i t4 s2 r1 Hi Hs1 Ht4 H. unfold bind in H. destruct (intn (i + 1) t4) as [[j t5]|] eqn:Ej; [|discriminate].
+    pose proof (in_zseq _ _ Hi) as Hir.
+    pose proof (intn_range (i + 1) t4 j t5 ltac:(lia) Ht4 Ej) as Hjr. pose proof (intn_tail (i + 1) t4 j t5 Ht4 Ej) as Ht5.
+    unfold ret in H. injection H as <- <-. split; [|exact Ht5].
+    apply (rows_permuted_trans rs s1); [exact Hs1|].
+    assert (Hrs1 : rect L s1) by (apply (rect_shape L rs); [exact (proj1 Hs1) | exact Hr]).
+    assert (Hl1 : length s1 = length rs) by (apply shape_length; exact (proj1 Hs1)).
+    assert (Hsite : forall q, 0 <= q < Z.of_nat (length sites) -> (Z.to_nat (nthZ sites q) < L)%nat).
+    { intros q Hq. unfold nthZ. assert (Hin : In (nth (Z.to_nat q) sites 0) sites) by (apply nth_In; lia).
+      rewrite Forall_forall in Hsites. specialize (Hsites _ Hin). lia. }
+    apply (row_swap_permuted L); [exact Hrs1 | rewrite Hl1; pose proof (nthZ_range (nrows rs) p x Hn Hp); unfold nrows in *; lia
+                                 | apply Hsite; lia | apply Hsite; lia].
+Qed.
